@@ -104,8 +104,14 @@ CHECKS = {
               "function generated for the battery are regenerated from the generated code on every run and checked by kernel "
               "evaluation. Tie + oracle: renaming equivariance of dump / load on class models renamed into adversarial names drawn from "
               "those tables, symtable scope check of every captured generated function, Lean pyRepr/pyUnquote vs repr/literal_eval. "
-              "The statement for every class of every program is carried by the oracle (sampled), not by a theorem about the generators"),
-        technique='Lean 4 proof over quoting / naming models + tables regenerated from generated code + renaming-equivariance oracle', ref='4 C15'),
+              "For the generator of the dump function (dump_func_for_dataclass) there is a Lean model of the generator itself, at the "
+              "level of the source text it writes (structured statement forms + printer + Python's definite-assignment scoping rule): "
+              "theorem C15_gendump_well_scoped - the body generated for EVERY class (any fields, keys, paths, catch-all, skip conditions, "
+              "tag text, Meta switches) reads only names that are bound when read; tie: parameter list, body text and ordered closure "
+              "keys compared byte for byte with the captured cls_asdict of seeded classes on every run, names vs symtable, and the "
+              "function is run through every bookkeeping branch. For the load-side generators (default and v1) the statement for "
+              "every class is carried by the oracle (sampled), not by a theorem about the generators"),
+        technique='Lean 4 proof over quoting / naming models and over a text-level model of the dump-function generator (scoping theorem for every class, byte-for-byte correspondence with the generated source) + tables regenerated from generated code + renaming-equivariance oracle', ref='4 C15'),
     'C16': dict(
         text=("Lean theorems over a model of the property_wizard metaclass, dataclass field collection and the setter wrapper: field "
               "order, constructor parameters, the declared default is the one routed through the setter exactly once when the argument "
